@@ -10,7 +10,8 @@ RULE = ("infer: every tag sequence up to length 3 (quick) / 4 (thorough) over 16
         "promote: all (dtype, value) pairs; results: schema() of arithmetic/join/aggregate/CSV outputs (numeric ladder, and the "
         "temporal ladder through the _Date routes: date/datetime/mixed columns +/- days as scalar, int vector, list, timedelta, "
         "with None on either side, comparisons, joins, aggregates) against infer of their values. non-trivial = at least two distinct tags in the sequence (or a promotion that changes the dtype)")
-ASSUMPTIONS = ["elements are instances of exactly the listed classes (subclasses of the ladder types are not modelled)",
+ASSUMPTIONS = ["elements are instances of the listed classes or of strict subclasses of them (IntEnum, float/str/date subclasses, "
+               "namedtuple, …), which count as their base kind throughout, as infer_kind's isinstance tests classify them",
                "promote_with / infer_kind / validate_scalar inspect only the exact type of a value (tabulation assumption)"]
 BUDGET_S = {"quick": 25, "thorough": 240}
 
@@ -22,11 +23,20 @@ def generate(rng, tier):
     for n in range(0, maxlen + 1):
         for tags in itertools.product(CODES, repeat=n):
             yield {"fam": "infer", "tags": list(tags), "variant": 0}
+    # the same sequences with subclass instances at every subset of positions (up to length 3)
+    for n in range(1, 4):
+        for tags in itertools.product(sorted(SUB_POOL) + [0, 1], repeat=n):
+            for r in range(1, n + 1):
+                for sub in itertools.combinations(range(n), r):
+                    if all(tags[i] in SUB_POOL for i in sub):
+                        yield {"fam": "infer", "tags": list(tags), "variant": 0, "sub": list(sub)}
     inv = {v: k for k, v in kind_codes().items()}
     for k in sorted(inv):
         for nullable in (False, True):
             for t in CODES:
                 yield {"fam": "promote", "kind": k, "nullable": nullable, "tag": t}
+                if t in SUB_POOL:
+                    yield {"fam": "promote", "kind": k, "nullable": nullable, "tag": t, "sub": True}
     # all orderings of random multisets over the ladder-relevant tags
     base = [0, 1, 2, 3, 5, 7, 8, 13]
     for _ in range(30 if tier == "quick" else 600):
@@ -55,11 +65,61 @@ def generate(rng, tier):
 
 EQUAL_POOL = {0: None, 1: True, 2: 1, 3: 1.0, 4: 1 + 0j}
 
+# instances of strict SUBCLASSES of the ladder / container types (enum.IntEnum, a float subclass as numpy's float64 is, a str
+# subclass, a date subclass, a namedtuple …): the quantifier's "arbitrary other classes".  infer_kind classifies with isinstance,
+# so such a value counts as its base kind — as the first element and as any later one alike.
+import collections as _c, enum as _enum, datetime as _dt
+
+
+class _E(_enum.IntEnum):
+    A = 3
+
+
+class _F(float):
+    pass
+
+
+class _C(complex):
+    pass
+
+
+class _S(str):
+    pass
+
+
+class _B(bytes):
+    pass
+
+
+class _D(_dt.date):
+    pass
+
+
+class _T(_dt.datetime):
+    pass
+
+
+class _L(list):
+    pass
+
+
+class _M(dict):
+    pass
+
+
+_P = _c.namedtuple("_P", "x y")
+SUB_POOL = {2: _E.A, 3: _F(2.5), 4: _C(1, 1), 5: _S("sub"), 6: _B(b"sub"), 7: _D(2021, 3, 4), 8: _T(2021, 3, 4, 5, 6), 9: _L([1]),
+            10: _M(a=1), 11: _P(1, 2)}
+
 
 def _values(spec):
     if spec.get("pool") == "equal":
         return [EQUAL_POOL[c] for c in spec["tags"]]
-    return [value_of(c, spec.get("variant", 0) + i) for i, c in enumerate(spec["tags"])]
+    vals = [value_of(c, spec.get("variant", 0) + i) for i, c in enumerate(spec["tags"])]
+    for i in spec.get("sub", ()):
+        if i < len(vals) and spec["tags"][i] in SUB_POOL:
+            vals[i] = SUB_POOL[spec["tags"][i]]
+    return vals
 
 
 def execute(spec):
@@ -79,7 +139,7 @@ def execute(spec):
     if fam == "promote":
         inv = {v: k for k, v in kind_codes().items()}
         d = DataType(inv[spec["kind"]], spec["nullable"])
-        r = d.promote_with(value_of(spec["tag"]))
+        r = d.promote_with(SUB_POOL[spec["tag"]] if spec.get("sub") else value_of(spec["tag"]))
         return {"fam": "promote", "case": {"dtype": [spec["kind"], spec["nullable"]], "tag": spec["tag"]}, "impl": dtype_wire(r)}
     if fam == "result":
         return _result(spec)
